@@ -61,3 +61,138 @@ theorem dict_roundtrip (Ce Cd : Codec V) (pay : V → List Bool × List Cell) (n
     exact hc2
 
 end Tongo.Hashmap
+
+/-! ### the encoder is monotone in the value codec, on the values it is given -/
+namespace Tongo.Hashmap
+open Tongo
+variable {V : Type}
+
+theorem splitKeys_vals (l : Nat) : ∀ (kvs L R : List (Key × V)), splitKeys l kvs = .ok (L, R) →
+    ∀ x, x ∈ L ∨ x ∈ R → ∃ y ∈ kvs, y.2 = x.2
+  | [], L, R, h, x, hx => by
+    simp only [splitKeys] at h
+    cases h
+    simp at hx
+  | (k, v) :: rest, L, R, h, x, hx => by
+    simp only [splitKeys] at h
+    split at h
+    · cases h
+    · split at h
+      · cases h
+      · rename_i b k' _
+        cases hr : splitKeys l rest with
+        | ok p =>
+          obtain ⟨L0, R0⟩ := p
+          rw [hr] at h
+          simp only at h
+          have ih := splitKeys_vals l rest L0 R0 hr
+          cases b
+          · simp only [Bool.false_eq_true, ↓reduceIte, Outcome.ok.injEq, Prod.mk.injEq] at h
+            obtain ⟨rfl, rfl⟩ := h
+            rcases hx with hx | hx
+            · rcases List.mem_cons.1 hx with rfl | hx
+              · exact ⟨(k, v), List.mem_cons_self .., rfl⟩
+              · obtain ⟨y, hy, e⟩ := ih x (Or.inl hx)
+                exact ⟨y, List.mem_cons_of_mem _ hy, e⟩
+            · obtain ⟨y, hy, e⟩ := ih x (Or.inr hx)
+              exact ⟨y, List.mem_cons_of_mem _ hy, e⟩
+          · simp only [↓reduceIte, Outcome.ok.injEq, Prod.mk.injEq] at h
+            obtain ⟨rfl, rfl⟩ := h
+            rcases hx with hx | hx
+            · obtain ⟨y, hy, e⟩ := ih x (Or.inl hx)
+              exact ⟨y, List.mem_cons_of_mem _ hy, e⟩
+            · rcases List.mem_cons.1 hx with rfl | hx
+              · exact ⟨(k, v), List.mem_cons_self .., rfl⟩
+              · obtain ⟨y, hy, e⟩ := ih x (Or.inr hx)
+                exact ⟨y, List.mem_cons_of_mem _ hy, e⟩
+        | err e => rw [hr] at h; cases h
+        | panic e => rw [hr] at h; cases h
+
+theorem encodeMap_mono_on (C1 C2 : Codec V) : ∀ (fuel : Nat) (kvs : List (Key × V)) (ks : Int) (r : Cell),
+    (∀ kv ∈ kvs, ∀ c, C1.enc kv.2 = .ok c → C2.enc kv.2 = .ok c) →
+    encodeMap C1 fuel kvs ks = .ok r → encodeMap C2 fuel kvs ks = .ok r
+  | 0, _, _, _, _, h => by simp [encodeMap] at h
+  | fuel + 1, kvs, ks, r, hon, h => by
+    cases kvs with
+    | nil => simp [encodeMap] at h
+    | cons x rest =>
+      cases rest with
+      | nil =>
+        obtain ⟨k, v⟩ := x
+        simp only [encodeMap] at h ⊢
+        cases h1 : C1.enc v with
+        | ok c =>
+          rw [hon (k, v) (List.mem_cons_self ..) c h1]
+          rw [h1] at h
+          exact h
+        | err e => rw [h1] at h; cases h
+        | panic e => rw [h1] at h; cases h
+      | cons y more =>
+        obtain ⟨k, v⟩ := x
+        simp only [encodeMap, encodeFork] at h ⊢
+        split at h
+        · rename_i label hl
+          try simp only [hl]
+          split at h
+          · rename_i L R hs
+            try simp only [hs]
+            have hv := splitKeys_vals label.length _ L R hs
+            have honL : ∀ kv ∈ L, ∀ c, C1.enc kv.2 = .ok c → C2.enc kv.2 = .ok c := by
+              intro kv hkv c hc
+              obtain ⟨y, hy, e⟩ := hv kv (Or.inl hkv)
+              rw [← e] at hc ⊢
+              exact hon y hy c hc
+            have honR : ∀ kv ∈ R, ∀ c, C1.enc kv.2 = .ok c → C2.enc kv.2 = .ok c := by
+              intro kv hkv c hc
+              obtain ⟨y, hy, e⟩ := hv kv (Or.inr hkv)
+              rw [← e] at hc ⊢
+              exact hon y hy c hc
+            split at h
+            · rename_i l hl1
+              rw [encodeMap_mono_on C1 C2 fuel L _ l honL hl1]
+              simp only
+              split at h
+              · rename_i r' hr1
+                rw [encodeMap_mono_on C1 C2 fuel R _ r' honR hr1]
+                exact h
+              · rename_i e he
+                exact (he _ h).elim
+            · rename_i e he
+              exact (he _ h).elim
+          · cases h
+          · cases h
+        · cases h
+        · cases h
+
+theorem mem_insertKV (x : Key × V) : ∀ (l : List (Key × V)) (y), y ∈ insertKV x l → y = x ∨ y ∈ l
+  | [], y, h => by simpa [insertKV] using h
+  | z :: zs, y, h => by
+    simp only [insertKV] at h
+    split at h
+    · rcases List.mem_cons.1 h with rfl | h
+      · exact Or.inr (List.mem_cons_self ..)
+      · rcases mem_insertKV x zs y h with rfl | h
+        · exact Or.inl rfl
+        · exact Or.inr (List.mem_cons_of_mem _ h)
+    · rcases List.mem_cons.1 h with rfl | h
+      · exact Or.inl rfl
+      · exact Or.inr h
+
+theorem mem_sortKV : ∀ (l : List (Key × V)) (y), y ∈ sortKV l → y ∈ l
+  | [], y, h => by simpa [sortKV] using h
+  | x :: xs, y, h => by
+    simp only [sortKV, List.foldr_cons] at h
+    rcases mem_insertKV x _ y h with rfl | h
+    · exact List.mem_cons_self ..
+    · exact List.mem_cons_of_mem _ (mem_sortKV xs y h)
+
+theorem marshal_mono_on (C1 C2 : Codec V) (n : Nat) (kvs : List (Key × V)) (r : Cell)
+    (hon : ∀ kv ∈ kvs, ∀ c, C1.enc kv.2 = .ok c → C2.enc kv.2 = .ok c) (h : marshal C1 n kvs = .ok r) :
+    marshal C2 n kvs = .ok r := by
+  unfold marshal at h ⊢
+  split at h
+  · rename_i he; rw [if_pos he]; exact h
+  · rename_i he; rw [if_neg he]
+    exact encodeMap_mono_on C1 C2 _ _ _ r (fun kv hkv => hon kv (mem_sortKV kvs kv hkv)) h
+
+end Tongo.Hashmap
